@@ -350,3 +350,39 @@ def gate_rule(ctx, rep, rid="ZONE"):
         rep.violation(rid, "floor:ZONE", "only %d functions with panic sites are behind an error gate (25 on the audited tree): a gate disappeared" % n)
     else:
         rep.ok(rid, "%d functions with unaudited panic sites are reachable only behind an error gate" % n)
+
+
+# -------------------------------------------------------------------------------------------------
+# NTH: positional access to the operands of a concatenation behind the error gate
+# -------------------------------------------------------------------------------------------------
+NTH_TABLE = {
+    "frontend::sema::OperatorValidator::run": ("ok", "a LeftRight branch has two distinct self references (first and last operand that is not a predicate, rename, elision "
+                                                      "or action), so the operand after the left one exists"),
+    "frontend::sema::LL1Validator::skip_first": ("finding", "a left-recursive branch may consist of the self reference alone once predicates are filtered out"),
+}
+
+
+def nth_rule(ctx, rep, rid="NTH"):
+    rep.rule(rid, "PANIC (gated zone, narrow): behind the error gate the validators address operands of a concatenation by position "
+                  "(`operands().nth(k).unwrap()`); every such site is audited for the shape of branch that reaches it. Only this class of gated-zone "
+                  "sites is audited; the map-index sites behind the gate are kept behind it by ZONE but not audited one by one")
+    z = zones_of(ctx)
+    n = 0
+    for bid in sorted(z.Gz, key=lambda i: z.G.bodies[i].name):
+        b = z.G.bodies[bid]
+        for s in cg.panic_sites(b):
+            if s["kind"] != "unwrap" or not s["args"]:
+                continue
+            if not any(x[0] == "call" and x[1].endswith("Iterator::nth") for x in walk(s["args"][0])):
+                continue
+            n += 1
+            ent = NTH_TABLE.get(b.name)
+            if ent is None:
+                rep.violation(rid, "unaudited|%s|nth-unwrap" % b.name, "%s unwraps `nth` on an operand iterator behind the error gate; no audited invariant says that "
+                              "every grammar without errors has that many operands there" % b.name, site(b, s["pt"]))
+            elif ent[0] == "finding":
+                rep.violation(rid, "%s|nth-unwrap" % b.name, "%s: %s" % (b.name, ent[1]), site(b, s["pt"]))
+            else:
+                rep.ok(rid, "%s  [%s]" % (b.name, ent[1][:100]))
+    if n < 2:
+        raise MissingAnchor("NTH: expected the positional operand accesses of the validators, found %d" % n)
